@@ -57,7 +57,10 @@ def materialise(d, model):
     open(os.path.join(work, 'f'), 'wb').write(conc(d['inc'], model))
     if d.get('pre_out') is not None:
         open(os.path.join(work, 'a.txt'), 'wb').write(conc(d['pre_out'], model))
-    if d.get('pre_temp') is not None:
+    if d.get('pre_temp') == 'DIR':
+        os.makedirs(os.path.join(work, 't.tmp'))
+        open(os.path.join(work, 't.tmp', 'keep'), 'wb').write(b'keep')
+    elif d.get('pre_temp') is not None:
         open(os.path.join(work, 't.tmp'), 'wb').write(conc(d['pre_temp'], model))
     for name, syms in d.get('extra_files', []):
         p = os.path.join(root, name.lstrip('/'))
@@ -103,7 +106,7 @@ def run_native(d, model, mode_args=(), trailing=True, cleanup=True, threads=1):
         out = open(p, 'rb').read()
     tmp = None
     p = os.path.join(work, 't.tmp')
-    if os.path.exists(p):
+    if os.path.isfile(p):
         tmp = open(p, 'rb').read()
     listing = sorted(os.listdir(work))
     cmds = []
@@ -138,7 +141,7 @@ def run_native_fault(d, model, op, path_suffix, nth, mode_args=(), trailing=True
     out = tmp = None
     if os.path.exists(os.path.join(work, 'a.txt')):
         out = open(os.path.join(work, 'a.txt'), 'rb').read()
-    if os.path.exists(os.path.join(work, 't.tmp')):
+    if os.path.isfile(os.path.join(work, 't.tmp')):
         tmp = open(os.path.join(work, 't.tmp'), 'rb').read()
     injected = os.path.exists(log)
     shutil.rmtree(root, ignore_errors=True)
@@ -177,7 +180,7 @@ def run_native_history(d, model, steps, threads=1):
         o = t = None
         if os.path.exists(os.path.join(work, 'a.txt')):
             o = open(os.path.join(work, 'a.txt'), 'rb').read()
-        if os.path.exists(os.path.join(work, 't.tmp')):
+        if os.path.isfile(os.path.join(work, 't.tmp')):
             t = open(os.path.join(work, 't.tmp'), 'rb').read()
         out.append({'rc': r.returncode, 'output': o, 'temp': t, 'stderr': r.stderr.decode('utf8', 'replace')[-300:],
                     'listing': sorted(os.listdir(work))})
